@@ -779,7 +779,10 @@ theorem run_assignTail_err_nonvar (σ σ' : St) (t : Tok) (r : Ref) (rv : Val) (
     cases x with
     | diag d =>
       simp only
-      split <;> rfl
+      split
+      · rw [run_bind_ok _ _ _ _ _ (run_get σ')]
+        split <;> rfl
+      · rfl
     | _ => rfl
 
 /-- **an assignment to a rooted reference** (right-hand side pure): it either fails — the state is then unchanged —
